@@ -444,6 +444,10 @@ func (p *provRun) judgeIncrease(d int64, k *KnownASG, err error, exit bool) {
 		p.viol("C17", "c17-fleet-request", "mode", "", "SetDesiredCapacity used in fleet mode", sets...)
 		return
 	}
+	if len(fleets) > 1 && identicalRetries(fleets) {
+		st.Probe("refused CreateFleet repeated")
+		fleets = fleets[len(fleets)-1:] // the earlier ones were refused and acquired nothing
+	}
 	if len(fleets) != 1 {
 		if len(fleets) == 0 && err != nil {
 			return // failed before the request (subnet lookup): nothing acquired
